@@ -379,7 +379,7 @@ def run(ctx):
     b = ctx.build("asan" if ctx.tier == "thorough" else "plain")
     model_exe = ctx.model_exe("m_c15")
     quick = ctx.tier == "quick"
-    n_schemas = 2 if quick else 16
+    n_schemas = 3 if quick else 16
     exit_thr = exit_threshold()
     schemas = []
     for si in range(n_schemas):
